@@ -67,6 +67,42 @@ def run(ctx):
                     check_dispositions(ctx, "C19.O1.sink-result-propagated", f, c,
                                        "%s%s|%s#%d" % (tag, f.path, c.name.split("::")[-1], k))
         ctx.floor("C19.O1 write sites on Output" + tag, n, 12)
+        # O6: no write is attempted after a failed one.  In the escaping / output code every path from one write on a
+        # sink to the next write on it passes a test of the first write's result (`?`, `ok!`, a match); combining the
+        # two results afterwards (`a.and(b)`, a tuple) evaluates the second write although the first failed, so the
+        # sink receives bytes that are not a prefix of the output.
+        n6 = 0
+        FW = ("core::fmt::Formatter::write_str", "core::fmt::Formatter::write_fmt", "core::fmt::Formatter::write_char",
+              "core::fmt::Write::write_str", "core::fmt::Write::write_fmt", "core::fmt::Write::write_char",
+              "<core::fmt::Formatter<'_> as core::fmt::Write>::write_str", "<core::fmt::Formatter<'_> as core::fmt::Write>::write_char",
+              "<core::fmt::Formatter<'_> as core::fmt::Write>::write_fmt") + WRITES
+        for f in prog.fns.values():
+            if not f.loc.f.endswith(("minijinja/src/utils.rs", "minijinja/src/output.rs")):
+                continue
+            ws = [c for c in f.calls() if (c.name in FW or c.path in FW) and c.dest is not None and "p" not in c.dest]
+            if len(ws) < 2:
+                continue
+            tests = {}
+            for w in ws:
+                sp = errflow.result_split(f, w.dest["l"])
+                bl = {sb for (sb, none_t, some_t, other, adt) in (sp.switches if sp else [])}
+                tests[w.bb] = bl
+            for w1 in ws:
+                for w2 in ws:
+                    if w1 is w2 or not cfg.can_reach(f, w1.bb, w2.bb):
+                        continue
+                    if w1.bb == w2.bb:
+                        continue
+                    n6 += 1
+                    ok6 = bool(tests[w1.bb]) and cfg.paths_must_pass(f, w1.target if w1.target is not None else w1.bb,
+                                                                     tests[w1.bb], [w2.bb])
+                    if not ok6:
+                        ctx.ob("C19.O6.no-write-after-a-failed-write", "%s%s|%s" % (tag, f.path, w2.name.split("::")[-1]), False,
+                               "a write at %s can run although the earlier write at %s failed (its result is not tested on "
+                               "every path between them): the sink receives bytes after reporting an error" % (
+                                   f.tloc(w2.bb), f.tloc(w1.bb)), f.where(w2.bb))
+        ctx.count("C19.O6 ordered pairs of writes checked" + tag, n6)
+        ctx.ob("C19.O6.no-write-after-a-failed-write", tag + "all-escaping-and-output-functions", True, "pairs checked: %d" % n6, "")
         # O2
         n2 = 0
         for f in prog.fns.values():
